@@ -45,26 +45,51 @@ let () =
   (try while true do acc := input_line stdin :: !acc done with End_of_file -> ());
   let lines = Array.of_list (List.rev !acc) in
   let n = Array.length lines in
-  let jobs = try int_of_string (Sys.getenv "C02_JOBS") with _ -> 12 in
+  let jobs = try int_of_string (Sys.getenv "C02_JOBS") with _ -> 14 in
   let k = max 1 (min jobs n) in
   if k = 1 then Array.iter (fun l -> print_string (eval l ^ "\n")) lines
   else begin
-    let fds = Array.init k (fun j ->
+    (* job queue: token t stands for the lines t, t+T, t+2T, ...; all tokens are written to a pipe before forking
+       and each worker pulls the next token when it is idle (the harness puts the expensive lines first) *)
+    let nt = min n 4000 in
+    let (qr, qw) = Unix.pipe () in
+    let tok = Bytes.create 8 in
+    for t = 0 to nt - 1 do
+      Bytes.blit_string (Printf.sprintf "%8d" t) 0 tok 0 8;
+      ignore (Unix.write qw tok 0 8)
+    done;
+    Unix.close qw;
+    flush stdout;
+    let fds = Array.init k (fun _ ->
       let (r, w) = Unix.pipe () in
       match Unix.fork () with
       | 0 ->
         Unix.close r;
         let b = Buffer.create 65536 in
-        let i = ref j in
-        while !i < n do Buffer.add_string b (eval lines.(!i)); Buffer.add_char b '\n'; i := !i + k done;
+        let buf = Bytes.create 8 in
+        let rec pull () =
+          let got = Unix.read qr buf 0 8 in
+          if got = 8 then begin
+            let i = ref (int_of_string (String.trim (Bytes.to_string buf))) in
+            while !i < n do
+              Buffer.add_string b (string_of_int !i); Buffer.add_char b ' ';
+              Buffer.add_string b (eval lines.(!i)); Buffer.add_char b '\n'; i := !i + nt
+            done;
+            pull ()
+          end in
+        pull ();
         let oc = Unix.out_channel_of_descr w in
         output_string oc (Buffer.contents b); close_out oc; exit 0
       | _ -> Unix.close w; r) in
+    Unix.close qr;
     let res = Array.make n "=!DRIVER_WORKER_DIED" in
-    Array.iteri (fun j r ->
+    Array.iter (fun r ->
       let ic = Unix.in_channel_of_descr r in
-      let i = ref j in
-      (try while !i < n do res.(!i) <- input_line ic; i := !i + k done with End_of_file -> ());
+      (try while true do
+           let l = input_line ic in
+           let sp = String.index l ' ' in
+           res.(int_of_string (String.sub l 0 sp)) <- String.sub l (sp + 1) (String.length l - sp - 1)
+         done with End_of_file -> ());
       close_in ic) fds;
     (try while true do ignore (Unix.wait ()) done with Unix.Unix_error _ -> ());
     Array.iter (fun l -> print_string (l ^ "\n")) res
